@@ -11,6 +11,7 @@ from ..interp import RngV, Tr
 from .common import run_configs
 
 LEVEL = "other"
+_TIER = "quick"
 END = ("END", "", "")
 
 
@@ -57,6 +58,10 @@ def challenge_derivation(ck, F):
 
 
 def body(ck, F, cfg):
+    if _TIER == "thorough" and cfg == "default":
+        from .. import witness
+
+        witness.require(ck, ['W1', 'W1v', 'W2a', 'W2b', 'W2c'], "WITNESS")
     ref = SC.reference_schedule()
     col_v, col_p = [], []
     rv, parts_v = SC.verifier_schedule(F, col_v)
@@ -154,6 +159,8 @@ def body(ck, F, cfg):
 
 
 def run(tier):
+    global _TIER
+    _TIER = tier
     ck = run_configs(
         "C06", tier, LEVEL, body,
         explanation="SCHED: the transcript operations of Prover::new/commit/prove and Verifier::new/commit/verification_scalars "
